@@ -25,6 +25,15 @@ func coreC03(tier string) []RunSpec {
 	for v := 1; v <= 2; v++ { // partial melt quote on the own invoice of an unpaid / an issued quote
 		out = append(out, RunSpec{Profile: "core:internal-partial", Params: map[string]int{"kind": kindIdx("internal"), "watcher": 0, "mpp": 1, "partial": v}})
 	}
+	// a storage error inside the melt quote request that precedes an internal settlement: variant
+	// (own invoice + partial amount / forged invoice / own invoice) x quote state x position of the error
+	for v := 0; v < 3; v++ {
+		for st := 0; st < 2; st++ {
+			for fq := 1; fq <= 3; fq++ {
+				out = append(out, RunSpec{Profile: "core:internal-faulted-quote", Params: map[string]int{"kind": kindIdx("intfq"), "watcher": 0, "mpp": 1, "fqv": v, "fqs": st, "fq": fq}})
+			}
+		}
+	}
 	for _, kind := range []string{"seq", "internal", "nut20", "race", "faulted"} {
 		for w := 0; w <= 1; w++ {
 			n := 1
@@ -49,7 +58,7 @@ func coreC03(tier string) []RunSpec {
 	return out
 }
 
-var c03Kinds = []string{"race", "seq", "internal", "nut20", "faulted"}
+var c03Kinds = []string{"race", "seq", "internal", "nut20", "faulted", "intfq"}
 
 func kindIdx(k string) int {
 	for i, x := range c03Kinds {
@@ -85,7 +94,7 @@ func runC03(rc *RunCtx) {
 		forced = v
 	}
 	rc.StepLoop(1, 5, func(i int) {
-		kind := T.Pick("step.kind", 5, 2, 2, 2, 2)
+		kind := T.Pick("step.kind", 5, 2, 2, 2, 2, 1)
 		if forced >= 0 {
 			kind = forced
 		}
@@ -100,6 +109,8 @@ func runC03(rc *RunCtx) {
 			c03Faulted(rc, user, i)
 		case "nut20":
 			c03Nut20(rc, user, i)
+		case "intfq":
+			c03InternalFaultedQuote(rc, user, i)
 		}
 	})
 	c03Finale(rc, user)
@@ -318,6 +329,71 @@ func c03Internal(rc *RunCtx, user *Actor, step int) {
 		}
 	})
 	rc.S.Drive(false)
+	rc.Nontrivial = true
+}
+
+// c03InternalFaultedQuote: the melt quote request that precedes an internal settlement meets a storage
+// error (the mint's look-up of its own mint quote may be the call that fails); whatever quote comes out
+// of it is melted, and the mint quote is then minted on. Judged by the Book like any other settlement.
+func c03InternalFaultedQuote(rc *RunCtx, user *Actor, step int) {
+	T, W := rc.T, rc.W
+	amount := uint64(2 << uint(T.Choose("fq.amt", 5)))
+	variant := rc.P("fqv", -1)
+	if variant < 0 {
+		variant = T.Choose("fq.variant", 3)
+	}
+	state := rc.P("fqs", -1)
+	if state < 0 {
+		state = T.Choose("fq.state", 2)
+	}
+	pos := rc.P("fq", -1)
+	if pos < 0 {
+		pos = 1 + T.Choose("fq.pos", 3)
+	}
+	rc.Op(fmt.Sprintf("internal faulted-quote variant=%d state=%d db_error@%d", variant, state, pos))
+	ks := W.ActiveKeyset("A")
+	name := fmt.Sprintf("s%d.fq", step)
+	a := NewActor(W, name)
+	var q *MintQuote
+	rc.Quietly(func() {
+		q, _ = a.ReqMintQuote("A", amount, false)
+		if q != nil && state == 1 {
+			W.LN.PayExternal(q.Hash)
+			a.Mint("A", q, W.NewOutputs(Split(amount), ks.ID), "")
+		}
+	})
+	if q == nil {
+		return
+	}
+	request := q.Request
+	var mppMsat uint64
+	switch variant {
+	case 0:
+		if W.Mints["A"].Cfg.EnableMPP {
+			mppMsat = 1000
+		}
+	case 1:
+		if f, err := W.LN.ForgeInvoiceWithHash(q.Hash, 1000); err == nil {
+			request = f
+		}
+	}
+	var lq *MeltQuote
+	rc.S.BeginEpisode(&FaultPlan{Node: "A", Kind: "db_error", SeamKind: "db", Pos: pos})
+	rc.S.Run1(name+".q", W.Ext, func() { lq, _ = a.ReqMeltQuote("A", request, mppMsat) })
+	rc.S.BeginEpisode()
+	rc.S.Run1(name+".rest", W.Ext, func() {
+		if lq != nil {
+			rc.S.Probe("c03_melt_quote_despite_storage_error")
+			if ins := user.Take("A", lq.Amount+lq.Reserve); ins != nil {
+				if r := a.Melt("A", lq.ID, ins); r.OK() {
+					user.remove("A", ins)
+				}
+			}
+		}
+		a.Mint("A", q, W.NewOutputs(Split(amount), ks.ID), "")
+		a.Mint("A", q, W.NewOutputs(Split(amount), ks.ID), "")
+	})
+	rc.S.Probe("c03_internal_faulted_quote")
 	rc.Nontrivial = true
 }
 
